@@ -128,15 +128,20 @@ def run_graph_case(case: dict) -> dict:
                 a = store[deps[0]]
                 b = store[deps[1]]
                 start = 0
+                idxl = []
                 if isinstance(a, tuple):
                     a, idx = a
-                    start = int(np.asarray(idx).reshape(-1)[0]) if np.asarray(idx).size else 0
+                    idxl = [int(x) for x in np.asarray(idx).reshape(-1).tolist()]
+                    start = idxl[0] if idxl else 0
+                blk = int(k[-1]) if isinstance(k, tuple) else 0
+                offset = int(sum(case["chunks"][:blk]))
                 agg = None
                 vals = [pv(x) for x in np.asarray(a).reshape(-1)]
                 bb = np.asarray(b).reshape(-1)
                 codes = label_tokens(bb, raw_kind) if raw_kind is not None else [int(x) for x in bb.tolist()]
                 tasks.append({
                     "kind": "chunk", "k": kid(k), "vals": vals, "codes": codes, "start": start,
+                    "hasidx": bool(idxl), "idx": idxl, "offset": offset,
                     "p": {"reindex": bool(d["reindex"]), "expected": _expected(d["expected"])["v"] if d["reindex"] else [],
                           "dropMissing": bool(d["reindex"]) or raw_kind is not None,
                           "nanKeepsNaN": d.get("engine") == "numbagg"},
